@@ -12,26 +12,26 @@ theorem SRel_init (ms ch : Nat) (h : 0 < ch) : SRel (SStr.init ms ch) File.empty
     rfl, h⟩
 
 theorem SRel.readline (s : SStr) (f : File Char) (h : SRel s f) :
-    s.readline.1 = firstLine true f.rest ∧
-    SRel s.readline.2 ⟨f.data, f.pos + (firstLine true f.rest).length⟩ := by
+    s.readline.1 = firstLine false f.rest ∧
+    SRel s.readline.2 ⟨f.data, f.pos + (firstLine false f.rest).length⟩ := by
   rcases h with ⟨hc, ht, hch⟩
   have hr := SStr.readline_spec s f.data hc
-  have hout : s.readline.1 = firstLine true f.rest := by
+  have hout : s.readline.1 = firstLine false f.rest := by
     rw [hr.1, ht]; rfl
   exact ⟨hout, hr.2.1, by rw [hr.2.2.1, hout, ht], by rw [hr.2.2.2]; exact hch⟩
 
 theorem SRel.next (s : SStr) (f : File Char) (h : SRel s f) :
-    s.next.1 = (Spec.next codecSem f).1 ∧ SRel s.next.2 (Spec.next codecSem f).2 := by
+    s.next.1 = (Spec.next textSem f).1 ∧ SRel s.next.2 (Spec.next textSem f).2 := by
   have hr := SRel.readline s f h
   have hle : f.pos ≤ f.data.length := by rw [← h.2.1]; exact h.1.ale
   unfold SStr.next
-  by_cases he : firstLine true f.rest = []
-  · rw [Spec.next_nil codecSem f he]
+  by_cases he : firstLine false f.rest = []
+  · rw [Spec.next_nil textSem f he]
     rw [if_pos (by rw [hr.1, he]; rfl)]
     rw [he] at hr
     rcases hr.2 with ⟨hc1, ht1, hch1⟩
     simp only [List.length_nil, Nat.add_zero] at ht1
-    have hrest : f.rest = [] := (firstLine_eq_nil true _).1 he
+    have hrest : f.rest = [] := (firstLine_eq_nil false _).1 he
     have hend : f.pos = f.data.length := by
       have := File.rest_length f; rw [hrest] at this; simp at this; omega
     have hcoh : CohAt s.readline.2 f.data f.data.length := by
@@ -46,13 +46,13 @@ theorem SRel.next (s : SStr) (f : File Char) (h : SRel s f) :
     refine ⟨hcoh.data, by simp [InRange, File.seekEnd], Nat.le_refl _, ⟨[], 0, ⟨?_, rfl, rfl, rfl⟩, ?_⟩, Or.inl rfl⟩
     · simp [File.rest, File.seekEnd]
     · simp [pend, Reader.merge, Reader.reset]
-  · rw [Spec.next_cons codecSem f he]
+  · rw [Spec.next_cons textSem f he]
     rw [if_neg (by rw [hr.1]; simpa using he)]
     exact ⟨by rw [hr.1]; rfl, hr.2⟩
 
 theorem SRel.drain (fuel : Nat) (s : SStr) (f : File Char) (acc : List (List Char)) (h : SRel s f)
     (hf : f.rest.length + 1 ≤ fuel) :
-    (SStr.drain fuel s acc).1 = acc.reverse ++ splitL true f.rest ∧
+    (SStr.drain fuel s acc).1 = acc.reverse ++ splitL false f.rest ∧
     SRel (SStr.drain fuel s acc).2 ⟨f.data, f.pos + f.rest.length⟩ := by
   induction fuel generalizing s f acc with
   | zero => omega
@@ -60,9 +60,9 @@ theorem SRel.drain (fuel : Nat) (s : SStr) (f : File Char) (acc : List (List Cha
     have hn := SRel.next s f h
     have hle : f.pos ≤ f.data.length := by rw [← h.2.1]; exact h.1.ale
     unfold SStr.drain
-    by_cases he : firstLine true f.rest = []
-    · rw [Spec.next_nil codecSem f he] at hn
-      have hrest : f.rest = [] := (firstLine_eq_nil true _).1 he
+    by_cases he : firstLine false f.rest = []
+    · rw [Spec.next_nil textSem f he] at hn
+      have hrest : f.rest = [] := (firstLine_eq_nil false _).1 he
       rcases hs : s.next with ⟨o, s'⟩
       rw [hs] at hn
       simp only at hn
@@ -71,40 +71,40 @@ theorem SRel.drain (fuel : Nat) (s : SStr) (f : File Char) (acc : List (List Cha
       simp only
       rw [hrest]
       exact ⟨by simp [splitL], by simpa using h2⟩
-    · rw [Spec.next_cons codecSem f he] at hn
-      have hne : f.rest ≠ [] := fun h0 => he ((firstLine_eq_nil true _).2 h0)
+    · rw [Spec.next_cons textSem f he] at hn
+      have hne : f.rest ≠ [] := fun h0 => he ((firstLine_eq_nil false _).2 h0)
       rcases hs : s.next with ⟨o, s'⟩
       rw [hs] at hn
       simp only at hn
       rcases hn with ⟨h1, h2⟩
       subst h1
       simp only
-      have hlen := firstLine_length_le true f.rest
-      have hpos : 0 < (codecSem.first f.rest).length := List.length_pos_iff.2 he
+      have hlen := firstLine_length_le false f.rest
+      have hpos : 0 < (textSem.first f.rest).length := List.length_pos_iff.2 he
       have hrl := File.rest_length f
-      have hrest' : (⟨f.data, f.pos + (codecSem.first f.rest).length⟩ : File Char).rest
-          = f.rest.drop (codecSem.first f.rest).length := by
+      have hrest' : (⟨f.data, f.pos + (textSem.first f.rest).length⟩ : File Char).rest
+          = f.rest.drop (textSem.first f.rest).length := by
         simp [File.rest, List.drop_drop]
-      have := ih s' ⟨f.data, f.pos + (codecSem.first f.rest).length⟩ (codecSem.first f.rest :: acc) h2
-        (by rw [hrest', List.length_drop]; show f.rest.length - (firstLine true f.rest).length + 1 ≤ fuel
-            have : 0 < (firstLine true f.rest).length := hpos
+      have := ih s' ⟨f.data, f.pos + (textSem.first f.rest).length⟩ (textSem.first f.rest :: acc) h2
+        (by rw [hrest', List.length_drop]; show f.rest.length - (firstLine false f.rest).length + 1 ≤ fuel
+            have : 0 < (firstLine false f.rest).length := hpos
             omega)
       rw [hrest'] at this
       refine ⟨?_, ?_⟩
-      · rw [this.1, splitL_head true f.rest hne]
+      · rw [this.1, splitL_head false f.rest hne]
         simp only [List.reverse_cons, List.append_assoc, List.singleton_append]
         rfl
       · have h3 := this.2
         simp only [List.length_drop] at h3
-        have hh : f.pos + (codecSem.first f.rest).length + (f.rest.length - (codecSem.first f.rest).length)
+        have hh : f.pos + (textSem.first f.rest).length + (f.rest.length - (textSem.first f.rest).length)
             = f.pos + f.rest.length := by
-          have : (codecSem.first f.rest).length ≤ f.rest.length := hlen
+          have : (textSem.first f.rest).length ≤ f.rest.length := hlen
           omega
         rw [hh] at h3
         exact h3
 
 theorem SStr.step_spec (s : SStr) (f : File Char) (op : Op Char) (h : SRel s f) (hok : okS f op = true) :
-    (s.step op).1 = (Spec.step codecSem f op).1 ∧ SRel (s.step op).2 (Spec.step codecSem f op).2 := by
+    (s.step op).1 = (Spec.step textSem f op).1 ∧ SRel (s.step op).2 (Spec.step textSem f op).2 := by
   rcases h with ⟨hc, ht, hch⟩
   have hle : f.pos ≤ f.data.length := by rw [← ht]; exact hc.ale
   cases op with
@@ -142,7 +142,7 @@ theorem SStr.step_spec (s : SStr) (f : File Char) (op : Op Char) (h : SRel s f) 
   | readlineN n => simp [okS] at hok
   | readlines =>
     have hr := SStr.readlines_spec s f.data hc
-    simp only [SStr.step, Spec.step, codecSem, File.rest]
+    simp only [SStr.step, Spec.step, textSem, File.rest]
     rw [hr.1, ht]
     refine ⟨rfl, hr.2.1, ?_, by rw [hr.2.2.2]; exact hch⟩
     rw [hr.2.2.1, List.length_drop]; simp only; omega
@@ -196,7 +196,7 @@ theorem SStr.step_spec (s : SStr) (f : File Char) (op : Op Char) (h : SRel s f) 
 
 theorem SStr.run_spec (s : SStr) (f : File Char) (ops : List (Op Char)) (h : SRel s f)
     (hv : validS f ops = true) :
-    (s.run ops).1 = (Spec.run codecSem f ops).1 ∧ SRel (s.run ops).2 (Spec.run codecSem f ops).2 := by
+    (s.run ops).1 = (Spec.run textSem f ops).1 ∧ SRel (s.run ops).2 (Spec.run textSem f ops).2 := by
   induction ops generalizing s f with
   | nil => exact ⟨rfl, h⟩
   | cons op ops ih =>
@@ -206,137 +206,105 @@ theorem SStr.run_spec (s : SStr) (f : File Char) (ops : List (Op Char)) (h : SRe
     simp only [SStr.run, Spec.run]
     exact ⟨by rw [hs.1, this.1], this.2⟩
 
-theorem splitL_noExotic (l : List Char) (h : noExotic l = true) : splitL true l = splitL false l := by
-  fun_induction splitL true l with
-  | case1 => simp [splitL]
-  | case2 cs' ih =>
-    have : noExotic cs' = true := by
-      simp only [noExotic, List.all_cons, Bool.and_eq_true] at h ⊢; exact h.2.2
-    rw [splitL_cr_lf, ih this]
-  | case3 d cs' hd ih =>
-    have : noExotic (d :: cs') = true := by
-      simp only [noExotic, List.all_cons, Bool.and_eq_true] at h ⊢; exact h.2
-    rw [splitL_cr_other false d cs' hd, ih this]
-  | case4 => rw [splitL_cr_end]
-  | case5 c cs hc hb ih =>
-    have hce : isExotic c = false := by
-      simp only [noExotic, List.all_cons, Bool.and_eq_true, Bool.not_eq_true'] at h; exact h.1
-    have : noExotic cs = true := by
-      simp only [noExotic, List.all_cons, Bool.and_eq_true] at h ⊢; exact h.2
-    rw [splitL_brk false c cs hc (by rw [← isBrk_noExotic c hce]; exact hb), ih this]
-  | case6 c cs hc hb hs ih =>
-    have hce : isExotic c = false := by
-      simp only [noExotic, List.all_cons, Bool.and_eq_true, Bool.not_eq_true'] at h; exact h.1
-    have : noExotic cs = true := by
-      simp only [noExotic, List.all_cons, Bool.and_eq_true] at h ⊢; exact h.2
-    rw [splitL_other_nil false c cs hc (by rw [← isBrk_noExotic c hce]; exact hb) (by rw [← ih this]; exact hs)]
-  | case7 c cs hc hb l' ls hs ih =>
-    have hce : isExotic c = false := by
-      simp only [noExotic, List.all_cons, Bool.and_eq_true, Bool.not_eq_true'] at h; exact h.1
-    have : noExotic cs = true := by
-      simp only [noExotic, List.all_cons, Bool.and_eq_true] at h ⊢; exact h.2
-    rw [splitL_other_cons false c cs l' ls hc (by rw [← isBrk_noExotic c hce]; exact hb) (by rw [← ih this]; exact hs)]
+/-! ### default `io.StringIO()` (lines end at LF only) on texts without a lone CR -/
 
-/-- on texts without exotic line boundaries the codec's line cutting is io.StringIO's -/
-theorem Spec.step_plain (f : File Char) (op : Op Char) (hp : plainOp f op = true) :
-    Spec.step codecSem f op = Spec.step textSem f op := by
-  cases op with
-  | readline =>
-    simp only [plainOp] at hp
-    have := firstLine_noExotic f.rest (noExotic_drop _ _ hp)
-    simp only [Spec.step, codecSem, textSem, this]
-  | next =>
-    simp only [plainOp] at hp
-    have := firstLine_noExotic f.rest (noExotic_drop _ _ hp)
-    simp only [Spec.step, Spec.next, codecSem, textSem, this]
-    rfl
-  | readlineN n =>
-    simp only [plainOp] at hp
-    have := firstLine_noExotic f.rest (noExotic_drop _ _ hp)
-    simp only [Spec.step, codecSem, textSem, this]
-  | list =>
-    simp only [plainOp] at hp
-    have := splitL_noExotic f.rest (noExotic_drop _ _ hp)
-    simp only [Spec.step, codecSem, textSem, this]
-  | drain =>
-    simp only [plainOp] at hp
-    have := splitL_noExotic f.rest (noExotic_drop _ _ hp)
-    simp only [Spec.step, codecSem, textSem, this]
-  | _ => rfl
+theorem noLoneCR_tail (c : Char) (cs : List Char) (h : noLoneCR (c :: cs) = true) : noLoneCR cs = true := by
+  simp only [noLoneCR, Bool.and_eq_true] at h; exact h.2
 
-theorem Spec.run_plain (f : File Char) (ops : List (Op Char)) (hp : plainS f ops = true) :
-    Spec.run codecSem f ops = Spec.run textSem f ops := by
-  induction ops generalizing f with
-  | nil => rfl
-  | cons op ops ih =>
-    simp only [plainS, Bool.and_eq_true] at hp
-    simp only [Spec.run]
-    rw [Spec.step_plain f op hp.1, ← ih _ (by rw [← Spec.step_plain f op hp.1]; exact hp.2)]
-
-/-! ### the tighter hypothesis `plainT` -/
-
-theorem Spec.step_plainT (f : File Char) (op : Op Char) (hp : plainOpT f op = true) :
-    Spec.step codecSem f op = Spec.step textSem f op := by
-  cases op with
-  | readline =>
-    simp only [plainOpT] at hp
-    have := firstLine_noExotic_line f.rest hp
-    simp only [Spec.step, codecSem, textSem, this]
-  | next =>
-    simp only [plainOpT] at hp
-    have := firstLine_noExotic_line f.rest hp
-    simp only [Spec.step, Spec.next, codecSem, textSem, this]
-    rfl
-  | readlineN n =>
-    simp only [plainOpT] at hp
-    have := firstLine_noExotic_line f.rest hp
-    simp only [Spec.step, codecSem, textSem, this]
-  | list =>
-    simp only [plainOpT] at hp
-    have := splitL_noExotic f.rest hp
-    simp only [Spec.step, codecSem, textSem, this]
-  | drain =>
-    simp only [plainOpT] at hp
-    have := splitL_noExotic f.rest hp
-    simp only [Spec.step, codecSem, textSem, this]
-  | _ => rfl
-
-theorem Spec.run_plainT (f : File Char) (ops : List (Op Char)) (hp : plainT f ops = true) :
-    Spec.run codecSem f ops = Spec.run textSem f ops := by
-  induction ops generalizing f with
-  | nil => rfl
-  | cons op ops ih =>
-    simp only [plainT, Bool.and_eq_true] at hp
-    simp only [Spec.run]
-    rw [Spec.step_plainT f op hp.1, ← ih _ (by rw [← Spec.step_plainT f op hp.1]; exact hp.2)]
-
-/-- the io line is a prefix of the unread rest -/
-theorem firstLine_eq_take (u : Bool) (l : List Char) : firstLine u l = l.take (firstLine u l).length := by
+theorem firstLine_lf (l : List Char) (h : noLoneCR l = true) : firstLine false l = takeLine isLF l := by
   induction l with
   | nil => rfl
   | cons c cs ih =>
+    have ht := noLoneCR_tail c cs h
     by_cases hcr : c = '\r'
     · subst hcr
       cases cs with
-      | nil => simp [firstLine]
-      | cons d cs' => by_cases hd : d = '\n' <;> simp [firstLine, hd]
-    · by_cases hb : isBrk u c = true
-      · simp [firstLine, hcr, hb]
-      · have hfl : firstLine u (c :: cs) = c :: firstLine u cs := by simp [firstLine, hcr, hb]
-        rw [hfl]; simp only [List.length_cons, List.take_succ_cons]; rw [← ih]
+      | nil => simp [noLoneCR] at h
+      | cons d cs' =>
+        have hd : d = '\n' := by
+          simp only [noLoneCR, Bool.and_eq_true] at h; simpa using h.1
+        subst hd
+        simp [firstLine, takeLine, isLF]
+    · by_cases hlf : c = '\n'
+      · subst hlf; simp [firstLine, takeLine, isLF, isBrk]
+      · have h1 : firstLine false (c :: cs) = c :: firstLine false cs := by simp [firstLine, hcr, isBrk, hlf]
+        have h2 : takeLine isLF (c :: cs) = c :: takeLine isLF cs := by simp [takeLine, isLF, hlf]
+        rw [h1, h2, ih ht]
 
-/-- `plainS` (no exotic character anywhere in the text) implies `plainT` -/
-theorem plainOp_imp_plainOpT (f : File Char) (op : Op Char) (h : plainOp f op = true) : plainOpT f op = true := by
-  have hr : noExotic f.data = true → noExotic f.rest = true := fun h => noExotic_drop _ _ h
-  have hl : noExotic f.data = true → noExotic (firstLine false f.rest) = true := by
-    intro h; rw [firstLine_eq_take]; exact noExotic_of_sublist_take _ _ (hr h)
-  cases op <;> simp only [plainOp, plainOpT] at h ⊢ <;> first | exact hl h | exact hr h | rfl
+theorem splitLines_lf_cons (c : Char) (cs : List Char) (hc : c ≠ '\n') (hcs : cs ≠ []) :
+    splitLines isLF (c :: cs) = (c :: (splitLines isLF cs).headD []) :: (splitLines isLF cs).tail := by
+  cases cs with
+  | nil => exact absurd rfl hcs
+  | cons d ds =>
+    have hne : splitLines isLF (d :: ds) ≠ [] := by
+      unfold splitLines; split
+      · simp
+      · split <;> simp
+    cases hs : splitLines isLF (d :: ds) with
+    | nil => exact absurd hs hne
+    | cons l ls =>
+      rw [splitLines, if_neg (by simp [isLF, hc]), hs]; rfl
 
-theorem plainS_imp_plainT (f : File Char) (ops : List (Op Char)) (h : plainS f ops = true) : plainT f ops = true := by
+theorem splitL_lf (l : List Char) (h : noLoneCR l = true) : splitL false l = splitLines isLF l := by
+  fun_induction splitL false l with
+  | case1 => rfl
+  | case2 cs' ih =>
+    have h2 : noLoneCR cs' = true := noLoneCR_tail _ _ (noLoneCR_tail _ _ h)
+    rw [ih h2]
+    simp [splitLines, isLF]
+  | case3 d cs' hd ih =>
+    have : d = '\n' := by
+      simp only [noLoneCR, Bool.and_eq_true] at h; simpa using h.1
+    exact absurd this hd
+  | case4 => simp [noLoneCR] at h
+  | case5 c cs hc hb ih =>
+    have hlf : c = '\n' := by simpa [isBrk] using hb
+    subst hlf
+    rw [ih (noLoneCR_tail _ _ h)]
+    simp [splitLines, isLF]
+  | case6 c cs hc hb hs ih =>
+    have hlf : c ≠ '\n' := by simpa [isBrk] using hb
+    have hcs : cs = [] := splitL_eq_nil false cs hs
+    subst hcs
+    simp [splitLines, isLF, hlf]
+  | case7 c cs hc hb l' ls hs ih =>
+    have hlf : c ≠ '\n' := by simpa [isBrk] using hb
+    have hcs : cs ≠ [] := by intro h0; subst h0; simp [splitL] at hs
+    rw [splitLines_lf_cons c cs hlf hcs, ← ih (noLoneCR_tail _ _ h), hs]
+    rfl
+
+/-- where the line-cutting operations meet no lone CR, io.StringIO(newline='') and the default io.StringIO() agree -/
+theorem Spec.step_lf (f : File Char) (op : Op Char) (hp : lfOp f op = true) :
+    Spec.step textSem f op = Spec.step lfSem f op := by
+  cases op with
+  | readline =>
+    simp only [lfOp] at hp
+    simp only [Spec.step, textSem, lfSem, firstLine_lf f.rest hp]
+  | next =>
+    simp only [lfOp] at hp
+    simp only [Spec.step, Spec.next, textSem, lfSem, firstLine_lf f.rest hp]
+    rfl
+  | readlineN n =>
+    simp only [lfOp] at hp
+    simp only [Spec.step, textSem, lfSem, firstLine_lf f.rest hp]
+  | readlines =>
+    simp only [lfOp] at hp
+    simp only [Spec.step, textSem, lfSem, splitL_lf f.rest hp]
+  | list =>
+    simp only [lfOp] at hp
+    simp only [Spec.step, textSem, lfSem, splitL_lf f.rest hp]
+  | drain =>
+    simp only [lfOp] at hp
+    simp only [Spec.step, textSem, lfSem, splitL_lf f.rest hp]
+  | _ => rfl
+
+theorem Spec.run_lf (f : File Char) (ops : List (Op Char)) (hp : lfOnly f ops = true) :
+    Spec.run textSem f ops = Spec.run lfSem f ops := by
   induction ops generalizing f with
   | nil => rfl
   | cons op ops ih =>
-    simp only [plainS, plainT, Bool.and_eq_true] at h ⊢
-    exact ⟨plainOp_imp_plainOpT f op h.1, ih _ h.2⟩
+    simp only [lfOnly, Bool.and_eq_true] at hp
+    simp only [Spec.run]
+    rw [← Spec.step_lf f op hp.1, ih _ hp.2]
 
 end C18
